@@ -872,6 +872,9 @@ func (x *Exec) evalAppend(call *ast.CallExpr, st *State) *Value {
 	info := x.fr().info
 	t := info.TypeOf(call.Args[0])
 	sl := types.Unalias(t).Underlying().(*types.Slice)
+	if x.isStruct(sl.Elem()) {
+		return x.evalAppendStruct(call, st, t, sl)
+	}
 	es := x.sortOf(sl.Elem())
 	base := x.coerce(x.eval(call.Args[0], st), t)
 	k, ks := x.elemKey(es, sl.Elem())
@@ -992,4 +995,114 @@ func specString(e ast.Expr) string {
 		return specString(e.Fun) + "(" + strings.Join(as, ",") + ")"
 	}
 	return "?"
+}
+
+// flatFields lists the scalar leaves of a struct value together with their element-map keys.
+type flatField struct {
+	key  string
+	ks   *Sort
+	es   *Sort
+	path []string
+}
+
+func (x *Exec) flattenStruct(t types.Type, path []string, key string, out *[]flatField) {
+	fs, k := x.fieldsOf(t)
+	if len(path) == 0 {
+		key = k
+	}
+	for _, f := range fs {
+		fpath := append(append([]string{}, path...), f.Name)
+		if f.S == nil && x.isStruct(f.T) {
+			x.flattenStruct(f.T, fpath, key, out)
+			continue
+		}
+		srt := f.S
+		if srt == nil {
+			srt = x.sortOf(f.T)
+		}
+		hk, ks := x.structElemKey(key, fpath, srt, f.T)
+		*out = append(*out, flatField{hk, ks, srt, fpath})
+	}
+}
+
+func (x *Exec) leafOf(v *Value, t types.Type, path []string) *Term {
+	cur, ct := v, t
+	for _, name := range path {
+		fs, _ := x.fieldsOf(ct)
+		found := false
+		for i, f := range fs {
+			if f.Name == name {
+				cur = cur.Fs[i]
+				ct = f.T
+				found = true
+				break
+			}
+		}
+		if !found {
+			panic(engErr("leafOf: no field %s", name))
+		}
+	}
+	if cur.Tm != nil && ct == nil {
+		return cur.Tm
+	}
+	return x.coerce(cur, ct).term()
+}
+
+// evalAppendStruct: append(s, v1, ..., vn) for a slice of struct values (stored field-wise).
+func (x *Exec) evalAppendStruct(call *ast.CallExpr, st *State, t types.Type, sl *types.Slice) *Value {
+	if call.Ellipsis.IsValid() {
+		panic(engErr("append(s, t...) of struct values not supported at %s", x.pos(call)))
+	}
+	base := x.coerce(x.eval(call.Args[0], st), t)
+	var vals []*Value
+	for _, a := range call.Args[1:] {
+		vals = append(vals, x.coerce(x.eval(a, st), sl.Elem()))
+	}
+	var fields []flatField
+	x.flattenStruct(sl.Elem(), nil, "", &fields)
+	ln := SLen(base.Tm)
+	addLen := IntLit(int64(len(vals)))
+	newLen := Add(ln, addLen)
+	fits := x.nameBool(And(Le(newLen, SCap(base.Tm)), Not(Eq(SArr(base.Tm), IntLit(0)))))
+	ref := x.alloc(st)
+	newCap := x.fresh("appcap", IntS)
+	x.vc.assume(Ge(newCap, newLen))
+	for _, ff := range fields {
+		m := st.hget(ff.key, ff.ks)
+		oldArr := Select(m, SArr(base.Tm))
+		inPlace := oldArr
+		for i, v := range vals {
+			inPlace = Store(inPlace, Add(Add(SOff(base.Tm), ln), IntLit(int64(i))), x.leafOf(v, sl.Elem(), ff.path))
+		}
+		na := x.fresh("app", ArrS(IntS, ff.es))
+		j := Var("j!", IntS)
+		sel := mk("select", "", ff.es, nil, na, j)
+		x.vc.assume(Forall([]*Term{j}, Implies(And(Le(IntLit(0), j), Lt(j, ln)),
+			mk("=", "", BoolS, nil, sel, mk("select", "", ff.es, nil, oldArr, Add(SOff(base.Tm), j)))), sel))
+		for i, v := range vals {
+			x.vc.assume(Eq(Select(na, Add(ln, IntLit(int64(i)))), x.leafOf(v, sl.Elem(), ff.path)))
+		}
+		switch {
+		case fits == True:
+			st.hset(ff.key, x.vc.define("h", Store(m, SArr(base.Tm), x.vc.define("appa", inPlace))), SArr(base.Tm))
+		case fits == False:
+			st.hset(ff.key, x.vc.define("h", Store(m, ref, na)), ref)
+		default:
+			hIn := Store(m, SArr(base.Tm), x.vc.define("appa", inPlace))
+			hRe := Store(m, ref, na)
+			st.hset(ff.key, x.vc.define("h", Ite(fits, hIn, hRe)), nil)
+			for w := st.wlog; w != nil; w = w.parent {
+				w.heap = w.heap[:len(w.heap)-1]
+				w.heap = append(w.heap, heapWrite{ff.key, SArr(base.Tm), And(st.guard, fits)}, heapWrite{ff.key, ref, And(st.guard, Not(fits))})
+			}
+		}
+	}
+	if fits == True {
+		return &Value{T: t, Tm: MkSliceC(SArr(base.Tm), SOff(base.Tm), newLen, SCap(base.Tm))}
+	}
+	if fits == False {
+		return &Value{T: t, Tm: MkSliceC(ref, IntLit(0), newLen, newCap)}
+	}
+	res := MkSliceC(Ite(fits, SArr(base.Tm), ref), Ite(fits, SOff(base.Tm), IntLit(0)), newLen, Ite(fits, SCap(base.Tm), newCap))
+	return &Value{T: t, Tm: x.vc.define("appres", res)}
 }
